@@ -12,7 +12,7 @@ from .engine import Unsupported
 from .ops import FullEngine
 from . import solve
 
-CONTRACT_MODULES = ["contracts.structure", "contracts.props"]
+CONTRACT_MODULES = ["contracts.structure", "contracts.helpers", "contracts.builders", "contracts.props"]
 
 
 def load_contracts():
@@ -36,8 +36,8 @@ def model_summary(model, ob, limit=60):
     return out
 
 
-def verify_function(qualname: str, repo_root=None, keep_models=False):
-    """worker: returns a JSON-able dict"""
+def verify_function(qualname: str, repo_root=None, keep_models=False, shard=None):
+    """worker: returns a JSON-able dict.  shard=(k, n): discharge only the obligations with index = k mod n"""
     t0 = time.time()
     reg = load_contracts()
     repo = Repo(repo_root)
@@ -60,24 +60,8 @@ def verify_function(qualname: str, repo_root=None, keep_models=False):
         res["traceback"] = traceback.format_exc()
         res["seconds"] = time.time() - t0
         return res
-    base = eng.base_facts()
-    for ob in eng.obligs:
-        try:
-            r = solve.discharge(ob, eng.ct.axioms_for, base)
-        except Exception as exc:
-            res["obligations"].append({"id": ob.oid, "kind": ob.kind, "status": "unknown", "backend": "-",
-                                       "seconds": 0.0, "reason": f"solver error: {exc}", "meta": ob.meta})
-            continue
-        entry = {"id": ob.oid, "kind": ob.kind, "status": r.status, "backend": r.backend, "seconds": round(r.seconds, 4),
-                 "ninst": r.ninst, "meta": ob.meta}
-        if r.reason:
-            entry["reason"] = r.reason
-        if r.status == "refuted":
-            entry["model"] = model_summary(r.model, ob)
-            if keep_models:
-                entry["_model"] = r.model
-                entry["_ob"] = ob
-        res["obligations"].append(entry)
+    res["gen_seconds"] = round(time.time() - t0, 2)
+    discharge_all(eng, res, keep_models, shard)
     res["paths"] = eng.stats["paths"]
     res["pruned"] = eng.stats["pruned"]
     res["seconds"] = time.time() - t0
@@ -114,9 +98,11 @@ def verify_lemma(lemma_id: str, repo_root=None, keep_models=False):
     return res
 
 
-def discharge_all(eng, res, keep_models=False):
+def discharge_all(eng, res, keep_models=False, shard=None):
     base = eng.base_facts()
-    for ob in eng.obligs:
+    for idx, ob in enumerate(eng.obligs):
+        if shard is not None and idx % shard[1] != shard[0]:
+            continue
         try:
             r = solve.discharge(ob, eng.ct.axioms_for, base)
         except Exception as exc:
